@@ -171,7 +171,7 @@ EXTRA = {
         "dictionary of _make_config_parser) regenerated from the source is cliOverrides. C14_empty_section_*/C14_code_empty_section: an item of a section without a name is rejected by model and regenerated code alike. C14_code_list_items(_complete), C14_code_item_value_of_listed: _list_items with parsed_sections / orphan_sections regenerated from the source lists every section of the file exactly once, and _item_value returns each listed item's value.",
  "C15": " C15_code_optionxform, C15_code_has_option(_default), C15_code_options(_default/_no_variable): what the repository's _RawConfigParser adds to the standard parser, regenerated from the source - "
         "key normalisation is norm; has_option and options of a section other than [Variables] answer from that section's OWN entries (hasOption / sectionKeys of the model), so a key of [Variables] "
-        "that no section repeats is not an option of any other section; an absent section is NoSectionError, never an empty list.",
+        "that no section repeats is not an option of any other section; an absent section is NoSectionError, never an empty list. C15_code_has_option_iff_options: the two regenerated methods agree - has_option(s, k) exactly when options(s) lists the normalised key.",
  "C16": " C16_code_pair_species(_iff/_no_unpack), C16_split_spec, C16_code_signature_check: the pair-key parser and the signature name-clash loop regenerated from the source are splitKey / validSignature; "
         "C16_code_read_from_parser: an unknown target is a configuration error before any factory runs. C16_code_reference_get: [Species] values override the element table property by property; unknown label / property are the declared errors. C16_code_parse_params_section/_section_properties: a present section, empty or not, is parsed entry by entry in order; each property reads its own section with its own line parser.",
  "C17": " C17_code_lammps/_dlpoly/_gulp/_setfl/_setfl_fs/_tabeam/_tabeam_fs/_tabulation_objects: for every whole-file writer and tabulation class on the text targets (ADP included) a "
